@@ -123,7 +123,9 @@ class Case:
                                            cleanup=None if cl is None else getattr(self.mod, 'cl_%d' % cl),
                                            status=None if ovr is None else (ovr[0], ovr[1]), **kwds)
                 else:
-                    self.sm.start(RAW_STATES[s], cleanup=None if cl is None else RAW_CLEAN[cl], **kwds)
+                    if cl is not None:          # no cleanup: rely on start()'s own default
+                        kwds['cleanup'] = RAW_CLEAN[cl]
+                    self.sm.start(RAW_STATES[s], **kwds)
             else:
                 if self.hs:
                     self.mod.stop_machine((r[1][0], r[1][1]))
